@@ -115,10 +115,10 @@ class Lock:
         self.f.close()
 
 
-def run(cmd, timeout=600, cwd=None, env=None, input=None):
-    """run a command, return (rc, stdout, stderr); rc=124 on timeout."""
-    if isinstance(cmd, str):
-        cmd = shlex.split(cmd)
+_PATIENCE = [2]     # how many more times a timeout may be re-tried and time out again (per process)
+
+
+def _run_once(cmd, timeout, cwd, env, input):
     try:
         p = subprocess.run(cmd, cwd=cwd, env=env, input=input, timeout=timeout,
                            stdout=subprocess.PIPE, stderr=subprocess.PIPE,
@@ -128,6 +128,30 @@ def run(cmd, timeout=600, cwd=None, env=None, input=None):
         out = e.stdout if isinstance(e.stdout, str) else (e.stdout or b"").decode("utf8", "replace")
         err = e.stderr if isinstance(e.stderr, str) else (e.stderr or b"").decode("utf8", "replace")
         return 124, out, err + "\n[timeout after %ss]" % timeout
+
+
+def run(cmd, timeout=600, cwd=None, env=None, input=None):
+    """run a command, return (rc, stdout, stderr); rc=124 on timeout.
+    A timeout is not believed at once: on a loaded machine a run that normally takes a second can
+    exceed its limit, and a hang reported for that reason would be a false alarm.  The command is
+    run once more, alone in this thread, with a limit 4 times larger (10 times when the load average
+    exceeds the number of cores).  A real hang times out again; after two confirmed hangs in one
+    check run further timeouts are believed immediately, so a change that hangs many cases does not
+    stall the check."""
+    if isinstance(cmd, str):
+        cmd = shlex.split(cmd)
+    r = _run_once(cmd, timeout, cwd, env, input)
+    if r[0] != 124 or _PATIENCE[0] <= 0 or timeout >= 3000:
+        return r
+    try:
+        loaded = os.getloadavg()[0] > (os.cpu_count() or 16)
+    except OSError:
+        loaded = False
+    r2 = _run_once(cmd, timeout * (10 if loaded else 4), cwd, env, input)
+    if r2[0] == 124:
+        _PATIENCE[0] -= 1
+        return r
+    return r2
 
 
 def log(msg):
